@@ -6,6 +6,7 @@
 #include <array>
 #include <chrono>
 #include <cstdint>
+#include <mutex>
 #include <optional>
 #include <span>
 #include <string>
@@ -37,6 +38,7 @@ public:
 
 private:
     std::chrono::seconds rotation_interval_;
+    mutable std::mutex mutex_;  // contexts_ is used by the transport accept/reader threads, the tick loop and the control thread
     std::unordered_map<std::string, SessionKeyContext> contexts_;
 
     static std::array<std::uint8_t, 32> derive_key(const crypto::Key& shared_secret,
